@@ -36,8 +36,6 @@ def run(ctx):
                          "rules and allOf on which Check succeeds: Example() is well-formed JSON (independent recogniser) and Validate(Example()) succeeds; (c) object keys containing quotes, "
                          "backslashes, control and non-ASCII characters; non-trivial = schema with a user type or a container")
     ctx.assumptions += ["Coq part: C04_self_valid_all (rule-free model accepts its own example); the example builder itself is not modelled: this property is decided by generated cases (partial)"]
-    ctx.classifiers["example_cutoff_or_first_alternative"] = lambda case: (isinstance(case, dict) and case.get("cls") == "cutoff" and case.get("kind") == "val"
-                                                                           and case.get("recursive") and case.get("validate_example", "")[:4] in ("E204", "E205"))
     ctx.classifiers["example_key_not_escaped"] = lambda case: isinstance(case, dict) and case.get("cls") == "keyescape"
     cases = []     # (label, harness case dict, expected example text or None, class tag)
     n = 1200 if quick else 24000
@@ -71,6 +69,23 @@ def run(ctx):
         ("array recursion", {"schema": "@t", "types": [["@t", "{\n  \"kids\": [@t]\n}"]]}, None, "cutoff"),
         ("or first loops", {"schema": "{\n  \"x\": @a | @l\n}", "types": [["@a", "{\n  \"x\": @a | @l\n}"], ["@l", "1"]]}, None, "cutoff"),
     ]
+    import os
+    cdir = os.path.join(vc.ROOT, "corpus", "C15")
+    for f in sorted(os.listdir(cdir)) if os.path.isdir(cdir) else []:
+        if f.endswith(".json"):
+            for c in json.load(open(os.path.join(cdir, f))):
+                if "schema" in c:
+                    cases.append(("corpus:" + f, {k: c[k] for k in ("schema", "types", "enums") if k in c}, c.get("expect_example"), None))
+    # the type graphs of the C03 check (allOf chains, parents that are also used on their own, additionalProperties types, rule-form references, key shortcuts)
+    import check_c03 as C3
+    g3 = C3.allof_stream(rng, 150 if quick else 3000) + C3.rule_form_cases(rng, 150 if quick else 3000)
+    for _ in range(300 if quick else 6000):
+        k = rng.randint(2, 6)
+        names, env = C3.gen_types(rng, k)
+        root = rng.choice([("ref", [names[-1]], False), ("obj", [("r", False, ("ref", rng.sample(names, min(k, rng.choice([1, 2]))), False)), ("s", True, ("ref", [rng.choice(names)], False))], None, [])])
+        g3.append((names, env, root, None))
+    for names, env, root, _ in g3:
+        cases.append(("c03-graph", {"schema": C3.print_node(env, root), "types": [[nm, C3.print_node(env, env[nm])] for nm in names]}, None, "cutoff"))
     lines = [json.dumps(dict(c, ops=[["check"], ["example"], ["valex"], ["exampleagain"]])) for _, c, _, _ in cases]
     try:
         outs = vc.impl_parallel(["schema"], lines, shards=16, timeout=600)
